@@ -72,6 +72,10 @@ class JokerSamples:
             n_offsets = meta.pop("n_offsets", n_offsets)
             kwargs.update(meta)
 
+        if t_ref is not None and not isinstance(t_ref, Time):
+            # a numeric reference time is a Barycentric MJD, like numeric data times
+            t_ref = Time(t_ref, format="mjd", scale="tcb")
+
         # Validate input poly_trend / n_offsets:
         poly_trend, _ = validate_poly_trend(poly_trend)
         n_offsets, _ = validate_n_offsets(n_offsets)
